@@ -25,6 +25,11 @@ impl InputVariant {
         self.data.is_tuple() && self.data.len() != 1
     }
 
+    /// Whether the variant was marked `#[darling(skip)]`.
+    pub(crate) fn is_skipped(&self) -> bool {
+        self.skip.unwrap_or_default()
+    }
+
     pub fn as_codegen_variant<'a>(&'a self, ty_ident: &'a syn::Ident) -> codegen::Variant<'a> {
         codegen::Variant {
             ty_ident,
